@@ -24,7 +24,7 @@ def mutate(rnd, text):
 
 
 def raw_case(mn, optext, tag):
-    s = asmio.stmt(mn, "raw", optext=optext)
+    s = asmio.stmt(mn, "raw", optext=optext, optcodes=[ord(c) for c in optext.upper()])
     v = asmio.stmt("EQU", "equ", label="V", expr=asmio.ex(asmio.num(5)))
     l1 = asmio.stmt("NOP", label="L")
     l2 = asmio.stmt("NOP", label="L2")
